@@ -87,9 +87,16 @@ func vsValidators() *types.ValidatorSet {
 	return types.NewValidatorSet([]*types.Validator{types.NewValidator(pk.PubKey(), 10)})
 }
 
-func vsMakeBlock(rng *mrand.Rand, h int64, t time.Time, vals *types.ValidatorSet) *vsBlk {
+// vsMakeBlock builds the block of height h; same != nil makes it carry the transactions of that
+// earlier block (two heights with one square).
+func vsMakeBlock(rng *mrand.Rand, h int64, t time.Time, vals *types.ValidatorSet, same *vsBlk) *vsBlk {
 	var txs types.Txs
-	switch rng.IntN(10) {
+	kind := rng.IntN(10)
+	if same != nil {
+		txs, kind = same.sb.Data.Txs, -1
+	}
+	switch kind {
+	case -1:
 	case 0, 1: // empty block
 	case 2, 3:
 		txs = append(txs, vsBytes(rng, 20+rng.IntN(200)))
@@ -178,6 +185,7 @@ type vsBridge struct {
 	storedAtPublish map[uint64]bool
 	dropped         map[string]bool // endpoints the chain-id verification must drop
 	usedDropped     string
+	ctl             *verifsim.FSControl
 	exTouched       map[int64]bool // heights an Exchange request covered (they may be stored without the listener publishing them)
 	vals            *types.ValidatorSet
 }
@@ -381,7 +389,9 @@ type vsHeaderBcast struct{ w *vsBridge }
 
 func (b vsHeaderBcast) Broadcast(ctx context.Context, eh *header.ExtendedHeader, _ ...pubsub.PubOpt) error {
 	w := b.w
+	resume := w.ctl.Pause() // the observation itself is not subject to injected faults
 	has, _ := w.st.HasByHeight(ctx, eh.Height())
+	resume()
 	w.mu.Lock()
 	w.published = append(w.published, eh.Height())
 	w.pubDAH[eh.Height()] = eh.DAH.Hash()
@@ -424,6 +434,7 @@ func vsListenerWorld(s *verifsim.Sim, dir string) {
 	archival := s.Chance(1, 2, "archival")
 	nsrc := s.Range(1, 3, "nsources")
 	fsFaults := s.Chance(1, 4, "fs_faults")
+	statFaults := !fsFaults && s.Chance(1, 5, "stat_faults")
 	withExchange := s.Chance(1, 2, "with_exchange")
 	window := time.Hour
 	s.Cfg["path"], s.Cfg["archival"], s.Cfg["nsources"], s.Cfg["fs_faults"], s.Cfg["exchange"] = "listener", archival, nsrc, fsFaults, withExchange
@@ -435,8 +446,19 @@ func vsListenerWorld(s *verifsim.Sim, dir string) {
 	if err != nil {
 		panic(err)
 	}
-	w.st = st
+	w.st, w.ctl = st, ctl
 	failNext := 0
+	failStat := 0
+	if statFaults {
+		ctl.Fail = func(kind, path string) error {
+			if failStat > 0 && kind == "stat" {
+				failStat--
+				s.Fault("fs-stat-eio")
+				return verifsim.ErrIO
+			}
+			return nil
+		}
+	}
 	if fsFaults {
 		ctl.Fail = func(kind, path string) error {
 			if failNext > 0 && (kind == "create" || kind == "link" || kind == "write") {
@@ -461,7 +483,11 @@ func vsListenerWorld(s *verifsim.Sim, dir string) {
 		case 2:
 			t = now.Add(time.Duration(3+rng.IntN(20)) * time.Second) // the proposer's clock is slightly ahead
 		}
-		b := vsMakeBlock(rng, h, t, w.vals)
+		var same *vsBlk
+		if h > 1 && !fsFaults && s.Chance(1, 8, "same_square_as_earlier") {
+			same = w.blocks[1+int64(rng.IntN(int(h-1)))]
+		}
+		b := vsMakeBlock(rng, h, t, w.vals, same)
 		b.inside = inside
 		w.blocks[h] = b
 		w.byHash[string(b.sb.Header.Hash())] = b
@@ -566,7 +592,9 @@ func vsListenerWorld(s *verifsim.Sim, dir string) {
 					s.Violate("c15-published-header-differs", "Exchange", "%s: header %d of the answer is not the header of height %d with that block's data availability header", what, i, h+int64(i))
 					return
 				}
+				resume := ctl.Pause()
 				has, herr := st.HasByHeight(ctx, eh.Height())
+				resume()
 				if herr == nil && !has && (want.inside || archival) {
 					s.Violate("c15-obtained-block-not-stored", "Exchange", "%s returned the header of height %d (inside window=%v, archival=%v) but the square is not in the store", what, eh.Height(), want.inside, archival)
 					return
@@ -628,6 +656,9 @@ func vsListenerWorld(s *verifsim.Sim, dir string) {
 				exchangeCall(kind, h, amount)
 			}})
 		}
+		if statFaults && failStat == 0 {
+			alts = append(alts, verifsim.Alt{Label: "stat calls start failing", Weight: 3, Do: func() { failStat = 1 + s.Choose(3, "failing_stats") }})
+		}
 		if fsFaults && failNext == 0 {
 			alts = append(alts, verifsim.Alt{Label: "disk fills up", Weight: 2, Do: func() { failNext = 1 + s.Choose(3, "failing_calls") }})
 		}
@@ -640,7 +671,7 @@ func vsListenerWorld(s *verifsim.Sim, dir string) {
 		return
 	}
 	// end phase: everything pending succeeds, then the listener must still be responsive
-	failNext = 0
+	failNext, failStat = 0, 0
 	ctl.Fail = nil
 	for i := 0; i < 400; i++ {
 		s.Drain(200)
@@ -847,7 +878,13 @@ func vsAvailabilityWorld(s *verifsim.Sim, dir string) {
 				t = time.Now().Add(-30 * 24 * time.Hour)
 				inside = false
 			}
-			b = vsMakeBlock(rng, h, t, vsValidators())
+			var same *vsBlk
+			for oh := int64(1); oh <= 4; oh++ {
+				if o := stored[oh]; o != nil && same == nil && s.Chance(1, 4, "same_square_as_stored") {
+					same = o
+				}
+			}
+			b = vsMakeBlock(rng, h, t, vsValidators(), same)
 			b.inside = inside
 		}
 		cur = b
@@ -912,7 +949,13 @@ func vsAvailabilityWorld(s *verifsim.Sim, dir string) {
 			if !empty && b.inside && !q4 {
 				s.Violate("c15-window-block-without-parity", "store", "%s: stored without the parity quadrant", what)
 			}
-			if !empty && !b.inside && q4 {
+			sharedInside := false
+			for _, o := range stored {
+				if o != b && o.inside && bytes.Equal(o.dah.Hash(), b.dah.Hash()) {
+					sharedInside = true
+				}
+			}
+			if !empty && !b.inside && q4 && !sharedInside {
 				s.Violate("c15-archival-stores-parity-of-old-block", "store", "%s: stored with the parity quadrant", what)
 			}
 		}
